@@ -670,7 +670,36 @@ def marker_node(m, wdir):
     return -1
 
 
+def first_sibling(W, k):
+    """0-based k -> 0-based index of the first directory with the same parent, or None (FirstSibling of Recursive.tla)."""
+    for j in range(k):
+        if W["par"][j] == W["par"][k]:
+            return j
+    return None
+
+
+def is_rec(W, k):
+    return W["on"][k] and (W["rec"][k] == "T" or (W["rec"][k] == "U" and W["root"]["rec"] == "T"))
+
+
+def prefix_named(c, pred):
+    """some directory is named like its first sibling plus a suffix ("a" / "ax") and pred(W, sibling, node) holds"""
+    W = c["W"]
+    return any(W["ext"][k] and first_sibling(W, k) is not None and pred(W, first_sibling(W, k), k) for k in range(W["n"]))
+
+
 REC_GUARDS = {
+    # path-prefix confusion: "r/a" vs "r/ax" -- neither contains the other, but one path is a string prefix of the other
+    "a sibling named <nested recursive package>x": lambda c: prefix_named(
+        c, lambda W, j, k: is_rec(W, j) and W["par"][j] and is_rec(W, W["par"][j] - 1) and W["kind"][k] == "go" and not W["on"][k]),
+    "a recursive package named <plain sibling>x": lambda c: prefix_named(c, lambda W, j, k: is_rec(W, k)),
+    "a sibling named <excluded package>x": lambda c: prefix_named(
+        c, lambda W, j, k: W["kind"][k] == "go" and c["expect"][j]["allowed"] == [0] and c["expect"][k]["allowed"] != [0] and W["kind"][j] == "go"),
+    "a sibling named <configured package>x below a recursive package": lambda c: prefix_named(
+        c, lambda W, j, k: W["on"][j] and not W["on"][k] and c["expect"][k]["allowed"] != [0]),
+    "unrelated recursive packages next to a nested pair": lambda c: sum(1 for k in range(c["W"]["n"]) if is_rec(c["W"], k)) >= 3 and any(
+        len(e["recanc"]) >= 2 for e in c["expect"]),
+    "several top-level packages": lambda c: sum(1 for p_ in c["W"]["par"] if p_ == 0) >= 2 and sum(c["W"]["on"]) >= 2,
     "a sub-package is added": lambda c: any(not c["W"]["on"][k] and e["allowed"] != [0] and e["strict"] for k, e in enumerate(c["expect"])),
     "a sub-package with Go files is excluded": lambda c: any(
         e["allowed"] == [0] and c["W"]["kind"][k] == "go" and e["strict"] and (c["W"]["root"]["excl"] or any(c["W"]["excl"]))
